@@ -175,33 +175,48 @@ Example summary_today_far_zone_loads :
              /\ parse_date (rc_date (op_rc op)) (b "2021/03/14") = Some (2021, 3, 14).
 Proof. eexists. split; vm_compute; reflexivity. Qed.
 
-(** FINDING: without --today the zone matters.  The hypothesis [i_f_today i = Some s] of
-    [tz_independent_clock] cannot be dropped: the same instant on the wall clock, read in two real
-    zones, gives two different reports.  (The zone enters through the clock value — [time.Now()] is
-    local — no longer through [w_tz]: under [with_tz] alone the runs are equal,
-    [run_ignores_process_zone].) *)
+(** Without --today the zone matters, but (fix F25) ONLY through the calendar day the wall clock shows in it
+    ([PeriodTz.run_depends_on_clock_day_only]: equal days, equal runs).  The hypothesis [i_f_today i = Some s] of
+    [tz_independent_clock] still cannot be dropped: the same instant read in two real zones in which it
+    falls on two different days gives two different reports -- as it must: "today" is a local notion.
+    (Before the fix the INSTANT entered: the same instant on the same calendar day, read at UTC and at
+    UTC-5, gave two different reports, the second one of the record dated tomorrow.) *)
 Theorem tz_independent_without_today_refuted :
   exists w i tz1 tz2 c1 c2, tz_ok tz1 /\ tz_ok tz2 /\ off c1 = tz1 /\ off c2 = tz2 /\ inst c1 = inst c2 /\
                             i_f_today i = None /\
                             run ZNum (with_zone w tz1 c1) i <> run ZNum (with_zone w tz2 c2) i.
 Proof.
-  exists (ex_world_log ex_log3), (ex_inv None None None None None (CSummary (b "today"))), 0, (-18000),
-         (ex_clock_in 0 (2021, 3, 14)), (ex_clock_in (-18000) (2021, 3, 14)).
+  (* 2021-03-14 15:00 UTC is 2021-03-15 01:00 at UTC+10 *)
+  exists (ex_world_log ex_log3), (ex_inv None None None None None (CSummary (b "today"))), 0, 36000,
+         (ex_clock_in 0 (2021, 3, 14)), (ex_clock_in 36000 (2021, 3, 15)).
   unfold tz_ok. repeat split; try lia. vm_compute. discriminate.
 Qed.
 
-(** what it prints at UTC-5 at 10:00 local time on 2021-03-14: the record dated 2021/03/15 *)
-Example summary_today_minus5_prints_tomorrow :
+(** at UTC-5 at 10:00 local time on 2021-03-14 [summary today] prints the records dated 2021/03/14
+    (before fix F25: the record dated 2021/03/15) ... *)
+Example summary_today_minus5_prints_today :
   run ZNum (with_zone (ex_world_log ex_log3) (-18000) (ex_clock_in (-18000) (2021, 3, 14)))
       (ex_inv None None None None None (CSummary (b "today")))
-  = run ZNum (ex_world_log ex_log3) (ex_inv None None None None None (CSummary (b "2021/03/15"))).
+  = run ZNum (ex_world_log ex_log3) (ex_inv None None None None None (CSummary (b "2021/03/14"))).
 Proof. vm_compute. reflexivity. Qed.
 
-(** ... and at UTC (the clock of [ex_world_log]) the records dated 2021/03/14 *)
+(** ... as at UTC (the clock of [ex_world_log]) ... *)
 Example summary_today_utc_prints_today :
   run ZNum (ex_world_log ex_log3) (ex_inv None None None None None (CSummary (b "today")))
   = run ZNum (ex_world_log ex_log3) (ex_inv None None None None None (CSummary (b "2021/03/14"))).
 Proof. vm_compute. reflexivity. Qed.
+
+(** ... and as with --today 2021/03/14 (instance of [Settings.clock_day_as_today]); at UTC+10, where the same
+    instant is 01:00 on 2021-03-15, it prints the record dated 2021/03/15 *)
+Example summary_today_clock_as_today_flag :
+  run ZNum (with_zone (ex_world_log ex_log3) (-18000) (ex_clock_in (-18000) (2021, 3, 14)))
+      (ex_inv None None None None None (CSummary (b "today")))
+  = run ZNum (with_zone (ex_world_log ex_log3) (-18000) (ex_clock_in (-18000) (2021, 3, 14)))
+      (ex_inv (Some (b "2021/03/14")) None None None None (CSummary (b "today")))
+  /\ run ZNum (with_zone (ex_world_log ex_log3) 36000 (ex_clock_in 36000 (2021, 3, 15)))
+      (ex_inv None None None None None (CSummary (b "today")))
+  = run ZNum (ex_world_log ex_log3) (ex_inv None None None None None (CSummary (b "2021/03/15"))).
+Proof. vm_compute. split; reflexivity. Qed.
 
 (** *** why "the same file with the other days deleted" is stated on parser events
     Read literally on the bytes of the file, the sentence is false in three situations, all
